@@ -111,7 +111,7 @@ def _alarm(signum, frame):
 
 class time_limit:
     """Guard against non-termination of an *instrumented* run whose untouched twin finished
-    in microseconds.  Only usable in the main thread (shards are single-threaded)."""
+    in microseconds: `seconds` of CPU time.  Only usable in the main thread."""
 
     def __init__(self, seconds=5.0):
         self.seconds = seconds
@@ -119,14 +119,17 @@ class time_limit:
     def __enter__(self):
         import signal
 
-        self.old = signal.signal(signal.SIGALRM, _alarm)
-        signal.setitimer(signal.ITIMER_REAL, self.seconds, 0.05)
+        # CPU time of this process (ITIMER_PROF), not wall-clock time: a runaway loop burns
+        # CPU, while a process that is merely descheduled on a loaded machine does not - a
+        # wall-clock limit here once produced false "hang" alarms during a heavily loaded run
+        self.old = signal.signal(signal.SIGPROF, _alarm)
+        signal.setitimer(signal.ITIMER_PROF, self.seconds, 0.05)
 
     def __exit__(self, *a):
         import signal
 
-        signal.setitimer(signal.ITIMER_REAL, 0)
-        signal.signal(signal.SIGALRM, self.old)
+        signal.setitimer(signal.ITIMER_PROF, 0)
+        signal.signal(signal.SIGPROF, self.old)
 
 
 def run_call(fn_obj, fn_ir, recipe, glb, script=None):
